@@ -1,11 +1,13 @@
-import Dbg.Lemmas.Block64
-import Dbg.Lemmas.KmerOrder
+import Dbg.Lemmas.DnaRefine
 /-! # C14 — Growable DNA string is a faithful sequence container
 
-Proved so far (block level): a storage block is a `Kmer32` word, `set_by_addr` changes exactly one base of
-it and `get_by_addr` reads it (so all of C10/C11 applies per block: in particular the per-block order
-embedding used by the derived `Ord`).  The history theorem over `push`/`extend`/… is modelled and compared
-with the crate (raw storage words) on every run; it is listed as partial. -/
+`DnaStr.toSeq d` (the first `len` lanes of the storage blocks) is the base vector a value stands for and
+`DnaStr.Inv d` the representation invariant of the anchor (`blocks = ⌈len/32⌉`, all lanes from `len` on
+are zero).  Every constructor / mutator establishes or preserves `Inv` and acts on `toSeq` as the same
+operation acts on a plain vector (`C14_history`, for every finite history); every observer is a function
+of `toSeq` (`C14_observers`); the representation is canonical (`C14_repr_canonical`), so derived
+`==`/`Hash` are those of the base vector, and derived `Ord` is its lexicographic order with a proper
+prefix first (`C14_cmp_lex`); a packed set returns every added sequence unchanged (`C14_packed_set`). -/
 namespace DnaStr
 
 theorem C14_block_set (b : BitVec 64) (i v : Nat) (hi : i < 32) (hv : v < 4) :
@@ -15,21 +17,127 @@ theorem C14_block_get (b : BitVec 64) (i : Nat) (hi : i < 32) :
     (Block64.blockSeq b)[i]? = some (blockGet b (2 * i)) := Block64.dna_blockGet_spec b i hi
 
 /-- per-block order: integer order of two blocks = lexicographic order of their 32 bases -/
-theorem C14_block_order (a b : BitVec 64) : a.toNat < b.toNat ↔ Block64.blockSeq a < Block64.blockSeq b :=
-  Kmer.lt_iff_lex Block64.k32_wf a b (fun i hi => BitVec.getLsbD_of_ge _ _ (by simpa [Block64.k32] using hi))
-    (fun i hi => BitVec.getLsbD_of_ge _ _ (by simpa [Block64.k32] using hi))
+theorem C14_block_order (a b : BitVec 64) : a.toNat < b.toNat ↔ Block64.blockSeq a < Block64.blockSeq b := block_lt a b
 
 /-- `blank(n)` has ⌈n/32⌉ zero blocks -/
-theorem C14_blank (n : Nat) : (blank n).len = n ∧ (blank n).storage = List.replicate ((n + 31) / 32) 0#64 := by
-  unfold blank
-  refine ⟨rfl, ?_⟩
-  simp only [show Gen.dnaWidth = 2 from rfl]
-  congr 1
-  have h1 : (n * 2) >>> 6 = n * 2 / 64 := Nat.shiftRight_eq_div_pow _ 6
-  have h2 : (n * 2) &&& 0x3F = n * 2 % 64 := Nat.and_two_pow_sub_one_eq_mod _ 6
-  simp only [h1, h2]
-  by_cases h : n * 2 % 64 > 0
-  · simp only [h, if_true]; omega
-  · simp only [h, if_false]; omega
+theorem C14_blank (n : Nat) : Inv (blank n) ∧ toSeq (blank n) = List.replicate n 0 := blank_spec n
+
+/-- construction and mutation operations of a history -/
+inductive Op
+  | push (v : Nat) | extend (bytes : List Nat) | pushBytes (bytes : List Nat) (n : Nat) | set (i v : Nat)
+  | clear | blank (n : Nat) | fromBytes (bytes : List Nat) | reverse | rc
+
+/-- the implementation -/
+def run (d : T) : Op → Option T
+  | .push v => push d v | .extend bs => extend d bs | .pushBytes bs n => pushBytes d bs n | .set i v => setMut d i v
+  | .clear => some (clear d) | .blank n => some (blank n) | .fromBytes bs => fromBytes bs | .reverse => reverse d | .rc => rc d
+
+/-- the same operation on a plain vector of bases -/
+def runSpec (l : List Nat) : Op → List Nat
+  | .push v => l ++ [v] | .extend bs => l ++ bs | .pushBytes bs n => l ++ unpackBytes bs n | .set i v => l.set i v
+  | .clear => [] | .blank n => List.replicate n 0 | .fromBytes bs => bs | .reverse => l.reverse | .rc => l.reverse.map (3 - ·)
+
+/-- the arguments the crate documents: base values below 4, `set` inside the string, `push_bytes` within its bytes -/
+def Op.ok (l : List Nat) : Op → Prop
+  | .push v => v < 4 | .extend bs => ∀ b ∈ bs, b < 4 | .pushBytes bs n => n ≤ bs.length * 4 | .set i v => i < l.length ∧ v < 4
+  | .clear => True | .blank _ => True | .fromBytes bs => ∀ b ∈ bs, b < 4 | .reverse => True | .rc => True
+
+theorem C14_step (d : T) (h : Inv d) (op : Op) (hok : op.ok (toSeq d)) :
+    ∃ d', run d op = some d' ∧ Inv d' ∧ toSeq d' = runSpec (toSeq d) op := by
+  cases op with
+  | push v => obtain ⟨d', e, i, s, _⟩ := push_spec d h v hok; exact ⟨d', e, i, s⟩
+  | extend bs => obtain ⟨d', e, i, s, _⟩ := extend_spec bs d h hok; exact ⟨d', e, i, s⟩
+  | pushBytes bs n => obtain ⟨d', e, i, s, _⟩ := (pushBytes_spec d h bs n).1 hok; exact ⟨d', e, i, s⟩
+  | set i v =>
+    obtain ⟨d', e, i', s, _⟩ := setMut_spec d h i v (by rw [← toSeq_length d h]; exact hok.1) hok.2
+    exact ⟨d', e, i', s⟩
+  | clear => exact ⟨_, rfl, (inv_clear d).1, (inv_clear d).2⟩
+  | blank n => exact ⟨_, rfl, (blank_spec n).1, (blank_spec n).2⟩
+  | fromBytes bs => obtain ⟨d', e, i, s, _⟩ := fromBytes_spec bs hok; exact ⟨d', e, i, s⟩
+  | reverse => exact reverse_spec d h
+  | rc => exact rc_spec d h
+
+def runAll : List Op → T → Option T
+  | [], d => some d
+  | op :: ops, d => (run d op).bind (runAll ops)
+def specAll : List Op → List Nat → List Nat
+  | [], l => l
+  | op :: ops, l => specAll ops (runSpec l op)
+def okAll : List Op → List Nat → Prop
+  | [], _ => True
+  | op :: ops, l => op.ok l ∧ okAll ops (runSpec l op)
+
+/-- **C14 (histories).** After any finite sequence of in-range construction / mutation operations the
+    value satisfies the representation invariant and stands for exactly the plain vector obtained by the
+    same operations; no operation panics. -/
+theorem C14_history (ops : List Op) (d : T) (h : Inv d) (hok : okAll ops (toSeq d)) :
+    ∃ d', runAll ops d = some d' ∧ Inv d' ∧ toSeq d' = specAll ops (toSeq d) := by
+  induction ops generalizing d with
+  | nil => exact ⟨d, rfl, h, rfl⟩
+  | cons op ops ih =>
+    obtain ⟨d1, e1, i1, s1⟩ := C14_step d h op hok.1
+    obtain ⟨d2, e2, i2, s2⟩ := ih d1 i1 (by rw [s1]; exact hok.2)
+    exact ⟨d2, by simp only [runAll, e1, Option.bind_some]; exact e2, i2, by rw [s2, s1]; rfl⟩
+
+/-- **C14 (observers).** Length, every base, iteration / bytes, ASCII and text renderings of a
+    well-formed value are those of its base vector; an index past the end of storage panics, and
+    `push_bytes` panics exactly when asked for more fields than its bytes hold. -/
+theorem C14_observers (d : T) (h : Inv d) :
+    d.len = (toSeq d).length ∧ (∀ i, i < d.len → get d i = (toSeq d)[i]?) ∧ toBytes d = some (toSeq d) ∧
+    toAsciiVec d = some ((toSeq d).map bitsToAscii) ∧ display d = some ((toSeq d).map bitsToBase) ∧
+    (∀ b ∈ toSeq d, b < 4) :=
+  ⟨(toSeq_length d h).symm, get_spec d h, toBytes_spec d h, toAsciiVec_spec d h, display_spec d h, toSeq_lt4 d h⟩
+
+/-- **C14 (canonical representation).** Two well-formed values with the same bases are the same
+    `(storage, len)` pair — so derived `==` and `Hash` depend only on the base sequence. -/
+theorem C14_repr_canonical (a b : T) (ha : Inv a) (hb : Inv b) : a = b ↔ toSeq a = toSeq b :=
+  ⟨fun h => by rw [h], repr_inj a b ha hb⟩
+
+/-- **C14 (ordering).** Derived `Ord` over `(storage, len)` is the lexicographic order of the base
+    vectors, a proper prefix sorting first. -/
+theorem C14_cmp_lex (a b : T) (ha : Inv a) (hb : Inv b) :
+    (cmp a b = .lt ↔ toSeq a < toSeq b) ∧ (cmp a b = .eq ↔ toSeq a = toSeq b) :=
+  ⟨cmp_lt_iff a b ha hb, cmp_eq_iff a b ha hb⟩
+
+/-- **C14 (routes agree).** Two histories that produce the same plain vector produce the same value. -/
+theorem C14_routes_agree (ops₁ ops₂ : List Op) (d₁ d₂ : T) (h₁ : Inv d₁) (h₂ : Inv d₂)
+    (ok₁ : okAll ops₁ (toSeq d₁)) (ok₂ : okAll ops₂ (toSeq d₂))
+    (h : specAll ops₁ (toSeq d₁) = specAll ops₂ (toSeq d₂)) : runAll ops₁ d₁ = runAll ops₂ d₂ := by
+  obtain ⟨a, ea, ia, sa⟩ := C14_history ops₁ d₁ h₁ ok₁
+  obtain ⟨b, eb, ib, sb⟩ := C14_history ops₂ d₂ h₂ ok₂
+  rw [ea, eb, repr_inj a b ia ib (by rw [sa, sb, h])]
+
+/-- **C14 (ndiffs).** The packed difference count of two equal-length values is the number of differing positions. -/
+theorem C14_ndiffs (a b : T) (ha : Inv a) (hb : Inv b) (hl : a.len = b.len) :
+    ndiffs a b = some (KSpec.hamming (toSeq a) (toSeq b)) := ndiffs_spec a b ha hb hl
+
+/-- **C14 (push_bytes guard).** -/
+theorem C14_pushBytes_guard (d : T) (bytes : List Nat) (n : Nat) (hn : ¬ n ≤ bytes.length * 4) (h : Inv d) :
+    pushBytes d bytes n = none := (pushBytes_spec d h bytes n).2 hn
+
+/-- **C14 (packed set).** After adding sequences one by one (each shorter than 2³² bases, the width of
+    the stored length), `get(i)` returns the `i`-th added sequence unchanged. -/
+theorem C14_packed_set (seqs : List (List Nat)) (hv : ∀ s ∈ seqs, (∀ b ∈ s, b < 4) ∧ s.length < 2 ^ 32) :
+    ∃ ps, seqs.foldl (fun acc s => acc.bind (PSet.add · s)) (some PSet.new) = some ps ∧
+      ∀ i (hi : i < seqs.length), PSet.get ps i = some seqs[i] := by
+  have key : ∀ (rest added : List (List Nat)) (ps : PSet), PSet.Inv ps added →
+      (∀ s ∈ rest, (∀ b ∈ s, b < 4) ∧ s.length < 2 ^ 32) →
+      ∃ ps', rest.foldl (fun acc s => acc.bind (PSet.add · s)) (some ps) = some ps' ∧ PSet.Inv ps' (added ++ rest) := by
+    intro rest
+    induction rest with
+    | nil => intro added ps h _; exact ⟨ps, rfl, by simpa using h⟩
+    | cons s rest ih =>
+      intro added ps h hr
+      obtain ⟨ps1, e1, i1⟩ := PSet.add_spec ps added h s (hr s (by simp)).1 (hr s (by simp)).2
+      obtain ⟨ps2, e2, i2⟩ := ih (added ++ [s]) ps1 i1 (fun t ht => hr t (by simp [ht]))
+      exact ⟨ps2, by simp only [List.foldl_cons, Option.bind_some, e1]; exact e2, by simpa using i2⟩
+  obtain ⟨ps, e, i⟩ := key seqs [] PSet.new PSet.inv_new hv
+  refine ⟨ps, e, fun j hj => ?_⟩
+  have := PSet.get_spec ps ([] ++ seqs) i j (by simpa using hj)
+  simpa using this
+
+/-- non-vacuity: a mixed history that crosses a block boundary by both paths -/
+example : okAll [.extend (List.replicate 31 1), .push 2, .extend [3, 0, 1], .set 32 2, .pushBytes [0xE4] 4, .rc] (toSeq new) := by
+  simp [okAll, Op.ok, runSpec, toSeq_new]
 
 end DnaStr
